@@ -243,6 +243,12 @@ fn simulate(c: &ReadCase) -> (Vec<(Vec<u8>, Vec<u8>)>, Vec<(Vec<u8>, Vec<u8>)>) 
             f2.push((s, q));
         }
     }
+    // the two files need not hold equally many reads (trimming drops reads from one file only)
+    match c.read_seed % 5 {
+        0 => { let n = f1.len() / 3; let moved: Vec<_> = f1.drain(f1.len() - n..).collect(); f2.extend(moved); }
+        1 => { let n = f2.len() / 3; let moved: Vec<_> = f2.drain(f2.len() - n..).collect(); f1.extend(moved); }
+        _ => {}
+    }
     // In an eighth of the read sets (k <= 41) one split k-mer occurs more than 65536 times: poly-G reads, as
     // real runs contain them. It lies far above the tabulated range and must not show up in any row.
     if c.read_seed % 8 == 5 && c.k <= 41 {
@@ -426,7 +432,7 @@ fn stages(tier: Tier) -> Vec<Box<dyn Stage>> {
         ),
         gen_stage_show(
             "reads",
-            "generated: genome 2-6 kb (in an eighth of the cases with a 4-6 kb element in 6-8 copies and coverage >= 50, so that >= 50 k-mers share multiplicities above 255), coverage 10-80, read length 80-150, error 0-3%, 0.05% N, base qualities all 'I' or arbitrary (cov ignores them), both orientations, reads alternating over two files (placement is a pure function of the case's read_seed), in a third of the sets a file starts with an all-N read or a 4-base read, in an eighth (k <= 41) poly-G reads give one split k-mer more than 65536 occurrences, k in {5,9,15,21,31,33,41,63} or any valid k, both strand modes. Oracle: fitted histogram (hook) and printed K_mers column == model multiplicity histogram of canonical split k-mers up to the last multiplicity shared by >= 50; cutoff (return value, stored, stderr) == harness cutoff for the fitted parameters; labels Error iff count < cutoff; Mixture_density == harness density (rel 1e-9). A fit that does not converge is inconclusive. Every decided case non-trivial.",
+            "generated: genome 2-6 kb (in an eighth of the cases with a 4-6 kb element in 6-8 copies and coverage >= 50, so that >= 50 k-mers share multiplicities above 255), coverage 10-80, read length 80-150, error 0-3%, 0.05% N, base qualities all 'I' or arbitrary (cov ignores them), both orientations, reads alternating over two files, in two fifths of the sets a third of one file's reads moved to the other (placement is a pure function of the case's read_seed), in a third of the sets a file starts with an all-N read or a 4-base read, in an eighth (k <= 41) poly-G reads give one split k-mer more than 65536 occurrences, k in {5,9,15,21,31,33,41,63} or any valid k, both strand modes. Oracle: fitted histogram (hook) and printed K_mers column == model multiplicity histogram of canonical split k-mers up to the last multiplicity shared by >= 50; cutoff (return value, stored, stderr) == harness cutoff for the fitted parameters; labels Error iff count < cutoff; Mixture_density == harness density (rel 1e-9). A fit that does not converge is inconclusive. Every decided case non-trivial.",
             tier.pick(320, 4000),
             30,
             reads_strategy,
